@@ -421,11 +421,20 @@ package vm
 //@ spec modpowPower(b int, e int) int = ite(e == 0, 1, big.ipow(b, e))
 //@ case MODPOW
 //@ opt inline-defers yes
-//@ requires op == opcode.MODPOW && v.getPrice == nil && wfStack(v.estack)
+//@ requires op == opcode.MODPOW && v.getPrice == nil && wfStack(v.estack) && (!ints3(v) || x1(v) >= 0)
 //@ panics-if !ints3(v) || modpowFaults(x2(v), x1(v), x0(v))
 //@ ensures[nofault] old(ints3(v) && !modpowFaults(x2(v), x1(v), x0(v)))
 //@ ensures[depth] depth(v) == old(depth(v)) - 2 && is(item(v, 0), *stackitem.BigInteger) && stackitem.wfItem(item(v, 0))
-//@ ensures[power] old(x1(v)) >= 0 ==> x0(v) == old(big.trem(modpowPower(x2(v), x1(v)), x0(v)))
-//@ ensures[inverse] old(x1(v)) == -1 ==> 0 <= x0(v) && x0(v) < old(x0(v)) && mod(x0(v) * old(x2(v)), old(x0(v))) == 1
+//@ ensures[power] x0(v) == old(big.trem(modpowPower(x2(v), x1(v)), x0(v)))
+//@ ensures[rest] forall(j, 0, depth(v) - 1, v.estack.elems[j] == old(v.estack.elems[j]))
+//@ ensures[err] v.refs <= MaxStackSize ==> err == nil
+
+//@ case MODPOWINV
+//@ opt inline-defers yes
+//@ requires op == opcode.MODPOW && v.getPrice == nil && wfStack(v.estack) && ints3(v) && x1(v) < 0
+//@ panics-if modpowFaults(x2(v), x1(v), x0(v))
+//@ ensures[nofault] old(!modpowFaults(x2(v), x1(v), x0(v)))
+//@ ensures[depth] depth(v) == old(depth(v)) - 2 && is(item(v, 0), *stackitem.BigInteger) && stackitem.wfItem(item(v, 0))
+//@ ensures[inverse] 0 <= x0(v) && x0(v) < old(x0(v)) && big.isInverse(x0(v), old(x2(v)), old(x0(v)))   // x0' * base == 1 modulo the modulus
 //@ ensures[rest] forall(j, 0, depth(v) - 1, v.estack.elems[j] == old(v.estack.elems[j]))
 //@ ensures[err] v.refs <= MaxStackSize ==> err == nil
